@@ -13,7 +13,7 @@ RULE = ("Cases: a recording layout (cycle lengths in {1,2,3}, optional unlabelle
         "up to 200 cycles. Oracle: set-theoretic definitions on the label vectors: all 12 map_* defined "
         "for every existing index; backward maps equal the exact index sets; forward maps give none "
         "(None or -1) exactly for unlabelled samples / unselected cycles; s in map_X_to_samples("
-        "map_sample_to_X(s)); the six project_* put each value on exactly the items mapping to it, NaN "
+        "map_sample_to_X(s)); the six project_* put each value (distinct finite values, then values including +-inf, 0, negative and NaN) on exactly the items mapping to it, NaN "
         "elsewhere, also when one cycle-vector object is used for several selections in turn. Non-trivial: >=2 chains or >=1 gap.")
 ASSUMPTIONS = ["label vectors are 1-D integer arrays built by the reference model (contiguous cycles, "
                "subset = rank among selected cycles, chain = maximal run of consecutive selected cycles)"]
@@ -161,45 +161,58 @@ def oracle(case, rec):
             if s not in as_list(back):
                 raise Violation('C16/roundtrip/chain', 'sample %d on %s' % (s, desc))
 
-    # projections: distinct recognisable values
-    cv = 100.0 + np.arange(K)
-    sv = 200.0 + np.arange(S)
-    hv = 300.0 + np.arange(H)
+    # projections: distinct recognisable values first, then the same with values that code likes to treat specially
+    # (+-inf, zero, negative, missing) - a projected value is data, whatever it is
+    def special(v, salt):
+        v = v.copy()
+        for i in range(v.size):
+            r = (i * 7 + salt) % 11
+            if r < 5:
+                v[i] = (np.inf, -np.inf, 0.0, -v[i], np.nan)[r]
+        return v
 
-    def expect_proj(name, got, exp):
-        got = np.asarray(got, dtype=float)
-        if got.shape != exp.shape or not np.array_equal(np.isnan(got), np.isnan(exp)) or \
-                not np.array_equal(got[~np.isnan(exp)], exp[~np.isnan(exp)]):
-            raise Violation('C16/%s/wrong-projection' % name, 'got %r expected %r on %s' % (got.tolist()[:40], exp.tolist()[:40], desc))
+    for vals_kind in ('distinct', 'special'):
+        cv = 100.0 + np.arange(K)
+        sv = 200.0 + np.arange(S)
+        hv = 300.0 + np.arange(H)
+        if vals_kind == 'special':
+            cv, sv, hv = special(cv, N + K), special(sv, N + K + 3), special(hv, N + K + 6)
 
-    e = np.full(N, np.nan)
-    for s in range(N):
-        if cyc[s] >= 0:
-            e[s] = cv[cyc[s]]
-    expect_proj('project_cycles_to_samples', call('project_cycles_to_samples', 'proj', cv.copy(), cyc.copy()), e)
-    e = np.full(K, np.nan)
-    for c in range(K):
-        if sub[c] >= 0:
-            e[c] = sv[sub[c]]
-    expect_proj('project_subset_to_cycles', call('project_subset_to_cycles', 'proj', sv.copy(), sub.copy()), e)
-    e = np.full(N, np.nan)
-    for s in range(N):
-        if cyc[s] >= 0 and sub[cyc[s]] >= 0:
-            e[s] = sv[sub[cyc[s]]]
-    expect_proj('project_subset_to_samples', call('project_subset_to_samples', 'proj', sv.copy(), sub.copy(), cyc.copy()), e)
-    e = np.array([hv[chain[j]] for j in range(S)], dtype=float) if S else np.zeros(0)
-    expect_proj('project_chain_to_subset', call('project_chain_to_subset', 'proj', hv.copy(), chain.copy()), e)
-    e = np.full(K, np.nan)
-    for c in range(K):
-        if sub[c] >= 0:
-            e[c] = hv[chain[sub[c]]]
-    expect_proj('project_chain_to_cycles', call('project_chain_to_cycles', 'proj', hv.copy(), chain.copy(), sub.copy()), e)
-    e = np.full(N, np.nan)
-    for s in range(N):
-        if cyc[s] >= 0 and sub[cyc[s]] >= 0:
-            e[s] = hv[chain[sub[cyc[s]]]]
-    expect_proj('project_chain_to_samples',
-                call('project_chain_to_samples', 'proj', hv.copy(), chain.copy(), sub.copy(), cyc.copy()), e)
+        def expect_proj(name, got, exp):
+            got = np.asarray(got, dtype=float)
+            if got.shape != exp.shape or not np.array_equal(np.isnan(got), np.isnan(exp)) or \
+                    not np.array_equal(got[~np.isnan(exp)], exp[~np.isnan(exp)]):
+                raise Violation('C16/%s/wrong-projection%s' % (name, '' if vals_kind == 'distinct' else '/inf-zero-negative-values'),
+                                'got %r expected %r on %s' % (got.tolist()[:40], exp.tolist()[:40], desc))
+
+        e = np.full(N, np.nan)
+        for s in range(N):
+            if cyc[s] >= 0:
+                e[s] = cv[cyc[s]]
+        expect_proj('project_cycles_to_samples', call('project_cycles_to_samples', 'proj', cv.copy(), cyc.copy()), e)
+        e = np.full(K, np.nan)
+        for c in range(K):
+            if sub[c] >= 0:
+                e[c] = sv[sub[c]]
+        expect_proj('project_subset_to_cycles', call('project_subset_to_cycles', 'proj', sv.copy(), sub.copy()), e)
+        e = np.full(N, np.nan)
+        for s in range(N):
+            if cyc[s] >= 0 and sub[cyc[s]] >= 0:
+                e[s] = sv[sub[cyc[s]]]
+        expect_proj('project_subset_to_samples', call('project_subset_to_samples', 'proj', sv.copy(), sub.copy(), cyc.copy()), e)
+        e = np.array([hv[chain[j]] for j in range(S)], dtype=float) if S else np.zeros(0)
+        expect_proj('project_chain_to_subset', call('project_chain_to_subset', 'proj', hv.copy(), chain.copy()), e)
+        e = np.full(K, np.nan)
+        for c in range(K):
+            if sub[c] >= 0:
+                e[c] = hv[chain[sub[c]]]
+        expect_proj('project_chain_to_cycles', call('project_chain_to_cycles', 'proj', hv.copy(), chain.copy(), sub.copy()), e)
+        e = np.full(N, np.nan)
+        for s in range(N):
+            if cyc[s] >= 0 and sub[cyc[s]] >= 0:
+                e[s] = hv[chain[sub[cyc[s]]]]
+        expect_proj('project_chain_to_samples',
+                    call('project_chain_to_samples', 'proj', hv.copy(), chain.copy(), sub.copy(), cyc.copy()), e)
 
     # the projections again through ONE cycle-vector object with several selections in turn (nothing may be remembered
     # from an earlier call): original selection, a rotated one, the original again
